@@ -72,15 +72,29 @@ def build_repo_bins():
     return os.path.join(REPO, "target", "debug")
 
 
+class HarnessDied(ToolError):
+    """the harness process was killed or aborted (memory exhaustion, abort, timeout) while running the code under test"""
+    pass
+
+
+def _limit_memory():
+    import resource
+    lim = 3 * 1024 ** 3
+    resource.setrlimit(resource.RLIMIT_AS, (lim, lim))
+
+
 def vh(args, timeout=3600):
     """runs the harness; its stderr (which external solver processes inherit) goes to work/vh_stderr.log"""
     os.makedirs(os.path.join(VERIF, "work"), exist_ok=True)
     errp = os.path.join(VERIF, "work", "vh_stderr.log")
     with open(errp, "ab") as ef:
         try:
-            p = subprocess.run([VH] + [str(a) for a in args], stdout=subprocess.PIPE, stderr=ef, timeout=timeout, text=True, errors="replace")
+            p = subprocess.run([VH] + [str(a) for a in args], stdout=subprocess.PIPE, stderr=ef, timeout=timeout, text=True, errors="replace",
+                               preexec_fn=_limit_memory)
         except subprocess.TimeoutExpired:
-            raise ToolError("timeout: vh %s" % " ".join(str(a) for a in args[:6]))
+            raise HarnessDied("timeout: vh %s" % " ".join(str(a) for a in args[:6]))
+    if p.returncode < 0 or p.returncode in (134, 137, 139):
+        raise HarnessDied("harness killed (status %d): vh %s" % (p.returncode, " ".join(str(a) for a in args[:6])))
     if p.returncode != 0:
         sys.stdout.write((p.stdout or "")[-2000:])
         try:
